@@ -31,10 +31,32 @@ def reachable(st, root, skip_fields=("parent_context", "env", "template")):
     return seen
 
 
-@contract(CTX + ".copy", prop="C15", name="copy[isolated: block_scope=False]")
-def copy_isolated(c):
+def _copy_isolated(c, origin):
+    """`origin`: where the calling context came from -- the top-level render ("root"), an
+    isolated copy (the caller is itself a partial/macro with arguments: "partial") or a
+    block-scoped copy (the caller is a {% block %} body that sees its parent's scope: "block").
+    GLOBAL DATA is the root context's globals in every case (statement: 'sees only its explicit
+    arguments, its bound variable and global data')."""
     env = mk_env(c)
-    ctx = mk_ctx(c, env)
+    global_data = c.dict("global_data")
+    if origin == "root":
+        ctx = mk_ctx(c, env, globals=global_data)
+        outer = []
+    else:
+        root = mk_ctx(c, env, globals=global_data)
+        rf = c.st.deref(root).fields
+        outer_ns = c.dict("enclosing_arguments")
+        chain = mk_chain(c, [outer_ns, global_data] if origin.startswith("partial") else [outer_ns, rf["scope"]])
+        outer = [outer_ns.addr, rf["locals"].addr, rf["scope"].addr, rf["counters"].addr, rf["tag_namespace"].addr, rf["loops"].addr, chain.addr]
+        parent = root
+        if origin == "partial-in-block":
+            # root -> block-scoped copy -> isolated copy (a partial rendered from a block body)
+            mid_ns = c.dict("block_namespace")
+            mid_chain = mk_chain(c, [mid_ns, rf["scope"]])
+            parent = mk_ctx(c, env, globals=mid_chain, parent_context=root, locals=c.dict("locals_mid"), counters=c.dict("counters_mid"), loops=c.list("loops_mid"))
+            mf = c.st.deref(parent).fields
+            outer += [mid_ns.addr, mid_chain.addr, mf["locals"].addr, mf["scope"].addr, mf["counters"].addr, mf["tag_namespace"].addr, mf["loops"].addr]
+        ctx = mk_ctx(c, env, globals=chain, parent_context=parent, locals=c.dict("locals2"), counters=c.dict("counters2"), loops=c.list("loops2"))
     # the caller has open block namespaces (for loops, with blocks) holding local names
     ns1, ns2 = c.dict("caller_block_ns1"), c.dict("caller_block_ns2")
     f0 = c.st.deref(ctx).fields
@@ -42,8 +64,10 @@ def copy_isolated(c):
     dq.items = [ns2, ns1] + dq.items
     namespace = c.dict("partial_args")
     disabled = c.list("disabled_tags_arg")
+    c.bounded_loop(0, 4)
+    c.assume_note("the walk along parent_context is executed on concrete ancestor chains of depth 0, 1 and 2 (root / partial / block / partial-in-block); longer chains repeat the same step")
     c.call(namespace, self_val=ctx, disabled_tags=disabled, carry_loop_iterations=c.bool("carry"), block_scope=const(False))
-    forbidden = {f0["locals"].addr, f0["counters"].addr, f0["tag_namespace"].addr, ns1.addr, ns2.addr, f0["scope"].addr, f0["loops"].addr}
+    forbidden = {f0["locals"].addr, f0["counters"].addr, f0["tag_namespace"].addr, ns1.addr, ns2.addr, f0["scope"].addr, f0["loops"].addr} | set(outer)
     def post(r):
         new = r.value
         f = r.st.deref(new).fields
@@ -52,17 +76,21 @@ def copy_isolated(c):
         fresh_locals = isinstance(loc, HDict) and not loc.items and loc.present is None and f["locals"].addr not in forbidden
         maps = r.st.deref(r.st.deref(f["scope"]).fields["_maps"]).items
         g = r.st.deref(f["globals"])
-        chain_ok = (isinstance(g, HObj) and g.cls[1] == "ReadOnlyChainMap" and r.st.deref(g.fields["_maps"]).items == [namespace, f0["globals"]]) or (
-            isinstance(g, HDict) and not g.items and g.present is None)  # an empty chain is replaced by an empty mapping
+        # exactly [its arguments (incl. the bound variable, pushed into them later), global data]
+        chain_ok = isinstance(g, HObj) and g.cls[1] == "ReadOnlyChainMap" and r.st.deref(g.fields["_maps"]).items == [namespace, global_data]
         order_ok = len(maps) == 4 and maps[0] == f["locals"] and maps[1] == f["globals"] and maps[3] == f["counters"]
         return z3.BoolVal(fresh_locals and chain_ok and order_ok and not (reach & forbidden) and (f["disabled_tags"] == disabled or (isinstance(r.st.deref(f["disabled_tags"]), HList) and r.st.deref(f["disabled_tags"]).items == [])))
-    c.ensures("partial-sees-only-its-arguments-and-global-data-and-shares-no-mutable-caller-state", post)
+    c.ensures("partial-sees-exactly-its-arguments-and-global-data-and-shares-no-mutable-caller-state", post)
     def caller_untouched(r):
         f = r.st.deref(ctx).fields
         return z3.BoolVal(r.st.deref(r.st.deref(f["scope"]).fields["_maps"]).items == dq.items and f["locals"] == f0["locals"])
     c.ensures("caller-context-untouched", caller_untouched)
     c.raises("ContextDepthError")
-    c.replay("code", code=REPLAY)
+    c.replay("code", code=REPLAY_NESTED if origin != "root" else REPLAY)
+
+
+for _origin in ("root", "partial", "block", "partial-in-block"):
+    contract(CTX + ".copy", prop="C15", name=f"copy[isolated: block_scope=False, caller={_origin}]")(lambda c, o=_origin: _copy_isolated(c, o))
 
 
 @contract("liquid.ast:Node.render", prop="C15")
@@ -123,13 +151,27 @@ def call_sites():
         for n in ast.walk(mod.tree):
             if isinstance(n, ast.Attribute) and n.attr == "parent_context" and isinstance(n.ctx, ast.Load):
                 uses.append(f"{m}@{n.lineno}")
-    obs.append(flow.ob("parent_context-is-never-read", not uses, str(uses)))
+    # ... except by copy(), which walks it to find the root context's global data
+    cp = load.find_method("liquid.context", "RenderContext", "copy")[2]
+    allowed = {f"liquid.context@{n.lineno}" for n in ast.walk(cp) if isinstance(n, ast.Attribute) and n.attr == "parent_context"}
+    uses = [u for u in uses if u not in allowed]
+    obs.append(flow.ob("parent_context-is-read-only-by-copy-to-find-the-global-data", not uses, str(uses)))
     return obs
 
 
 not_covered("C15", "environment and template globals are shared by design (the statement allows 'global data')", "the snippet tag and inline templates")
 
 bounded("C15", "bounded/C15.py")
+
+REPLAY_NESTED = r'''
+def run(m):
+    from liquid import DictLoader, Environment
+    env = Environment(extra=True, loader=DictLoader({"p": "[{{ a }}{{ secret }}]", "outer": "{% render 'p' %}",
+          "base": "{% assign secret = 'S' %}{% block b %}{% endblock %}", "child": "{% extends 'base' %}{% block b %}{% render 'p' %}{% endblock %}"}))
+    out = [env.from_string("{% render 'outer', a: 'A' %}").render(), env.get_template("child").render(),
+           env.from_string("{% macro m a %}{% render 'p' %}{% endmacro %}{% call m 'A' %}").render()]
+    return {"violated": out != ["[]", "[]", "[]"], "observed": out}
+'''
 
 REPLAY = r'''
 def run(m):
